@@ -105,4 +105,10 @@ func registerProps() {
 		Rule: "each run = one scenario against the real server started with the flags under test: join-code lifetime (connect at creation, 1 ms before and 1 ms / 2 s after expiry for lifetimes 1 s ... 24 h on the fake clock; connect while the host is connected, 30 s in, and 1 s after it disconnected), uniqueness among 20-50 live sessions with a join-code random source reduced to 256 codes, concurrent bursts of session creations / receivers of one host / WebSocket connections against limits 1-3 and against 0 (disabled: all must pass), message sizes around --max-message-bytes, message bursts against --ws-msgs-per-sec/--ws-msgs-burst; seeded schedule over the server's generated yield points and the SimTCP events; distinct by decision-log hash",
 		Real: t3Real, Stub: append([]string{"clients: harness goroutines using net/http and raw gorilla connections"}, t3Stub...), Assume: t3Assume,
 	})
+	reg(&propDef{
+		ID: "C10", Pkg: "cmd/thruserv", Level: "exploration",
+		Quick: 2500, Thorough: 100000, QuickWall: 5 * time.Minute, ThorWall: 30 * time.Minute,
+		Rule:   "each run = 1-3 sessions with a host and 0-3 receivers each (some reconnecting with a duplicate peer id), every client a scripted raw WebSocket connection that sends addressed, broadcast, spoofed-from, foreign-session-id, malformed and id-less messages (each valid one with a unique token), sleeps, stalls its inbound path, closes or resets; at most ~100 messages per recipient; all against the real server main over SimTCP under a seeded schedule; non-trivial = more than 50 scheduling steps, distinct by decision-log hash",
+		Real: t3Real, Stub: append([]string{"clients: scripted raw gorilla connections (wsclient runs in C16)"}, t3Stub...), Assume: append([]string{"must-deliver is asserted only for a recipient that had received its peer_list before the message was sent, kept its connection to the end, has a peer id unique in its session, and whose author also stayed connected; everything else is 'may'"}, t3Assume...),
+	})
 }
